@@ -1290,6 +1290,127 @@ Proof.
 Qed.
 
 
+(* ---- ... and conversely: nothing gains a value or changes it ---------------------------------- *)
+Lemma inline_worker_inv : forall f cells ti e e',
+  inline_worker f cells ti e = Ok e' ->
+  ((forall op args, e <> TNode op args) /\ e' = e) \/
+  (exists f' op args args', f = S f' /\ e = TNode op args /\ e' = TNode op args' /\
+                            mapM_res (argfun f' cells ti) args = Ok args').
+Proof.
+  intros f cells ti e e' H. destruct f as [|f]; [discriminate|].
+  destruct e as [x|c|c|op args].
+  - left. split; [intros; discriminate | cbn in H; inversion H; reflexivity].
+  - left. split; [intros; discriminate | cbn in H; inversion H; reflexivity].
+  - left. split; [intros; discriminate | cbn in H; inversion H; reflexivity].
+  - right. rewrite inline_worker_node in H.
+    destruct (mapM_res (argfun f cells ti) args) as [args'|] eqn:E; [|discriminate].
+    inversion H; subst. exists f, op, args, args'. auto.
+Qed.
+
+(* [e'] comes from [e]: unchanged, by the worker, or as an argument of a node *)
+Definition InlRel (cells : list (Z * cell)) (ti : list Z) (e e' : tree) : Prop :=
+  e = e' \/ (exists f, inline_worker f cells ti e = Ok e') \/ (exists f, argfun f cells ti e = Ok e').
+
+Lemma InlRel_elim : forall (s : state) ti p e' b,
+  Den s p e' b ->
+  (forall f e, inline_worker f (s_cells s) ti e = Ok e' -> Den s p e b) ->
+  forall e, InlRel (s_cells s) ti e e' -> Den s p e b.
+Proof.
+  intros s ti p e' b D W e [->|[[f H]|[f H]]]; [exact D | exact (W f e H)|].
+  destruct e as [x|c|c|op args]; cbn [argfun] in H.
+  - inversion H; subst. exact D.
+  - destruct (zmem c ti).
+    + destruct (dget c (s_cells s)) as [cl0|] eqn:Ec; [|discriminate].
+      eapply DRef; [exact Ec | exact (W f _ H)].
+    + inversion H; subst. exact D.
+  - inversion H; subst. exact D.
+  - exact (W f _ H).
+Qed.
+
+Lemma inline_leaf_W : forall (s : state) ti p e' b,
+  (forall op args, e' <> TNode op args) -> Den s p e' b ->
+  forall f e, inline_worker f (s_cells s) ti e = Ok e' -> Den s p e b.
+Proof.
+  intros s ti p e' b Hl D f e H.
+  destruct (inline_worker_inv _ _ _ _ _ H) as [[_ ->]|(f' & op & args & args' & _ & _ & -> & _)];
+    [exact D | exfalso; eapply Hl; reflexivity].
+Qed.
+
+Lemma inline_step_den_conv : forall (s : state) ti k cl F g',
+  dget k (s_cells s) = Some cl ->
+  inline_worker F (s_cells s) ti (c_geom cl) = Ok g' ->
+  forall p,
+  (forall e' b, Den (set_cells s (dset k (with_geom cl g') (s_cells s))) p e' b ->
+     forall e, InlRel (s_cells s) ti e e' -> Den s p e b) /\
+  (forall es' bs, DenL (set_cells s (dset k (with_geom cl g') (s_cells s))) p es' bs ->
+     forall es, (es = es' \/ exists f, mapM_res (argfun f (s_cells s) ti) es = Ok es') ->
+     DenL s p es bs).
+Proof.
+  intros s ti k cl F g' Hk Hg p.
+  set (s' := set_cells s (dset k (with_geom cl g') (s_cells s))).
+  apply (Den_DenL_ind T surf P sense s' p
+    (fun e' b _ => forall e, InlRel (s_cells s) ti e e' -> Den s p e b)
+    (fun es' bs _ => forall es,
+       (es = es' \/ exists f, mapM_res (argfun f (s_cells s) ti) es = Ok es') -> DenL s p es bs)).
+  - intros x o Ho.
+    assert (D : Den s p (TSurf x) (lit x (sense o p))) by (apply DSurf; exact Ho).
+    apply InlRel_elim; [exact D|]. apply inline_leaf_W; [intros; discriminate | exact D].
+  - intros c cl0 b Hc _ IH.
+    assert (D : Den s p (TRef c) b).
+    { unfold s' in Hc. cbn [set_cells s_cells] in Hc. destruct (Z.eq_dec c k) as [->|Hne].
+      - rewrite dget_dset_same in Hc. inversion Hc; subst cl0. cbn [with_geom c_geom] in IH.
+        eapply DRef; [exact Hk|]. apply IH. right. left. exists F. exact Hg.
+      - rewrite dget_dset_other in Hc by exact Hne.
+        eapply DRef; [exact Hc|]. apply IH. left. reflexivity. }
+    apply InlRel_elim; [exact D|]. apply inline_leaf_W; [intros; discriminate | exact D].
+  - intros op args' bs _ IH.
+    assert (D : Den s p (TNode op args') (combine_op op bs)).
+    { apply DNode. apply IH. left. reflexivity. }
+    apply InlRel_elim; [exact D|].
+    intros f e H.
+    destruct (inline_worker_inv _ _ _ _ _ H) as [[_ E]|(f' & op0 & args & args0 & _ & -> & E & Hm)].
+    + subst e. exact D.
+    + inversion E; subst op0 args0. apply DNode. apply IH. right. exists f'. exact Hm.
+  - intros es [->|[f H]]; [apply DNil|].
+    destruct es as [|a r]; [apply DNil|]. cbn in H.
+    destruct (argfun f (s_cells s) ti a); [|discriminate].
+    destruct (mapM_res (argfun f (s_cells s) ti) r); discriminate.
+  - intros e' b es' bs _ IHe _ IHs es [->|[f H]].
+    + apply DCons; [apply IHe; left; reflexivity | apply IHs; left; reflexivity].
+    + destruct es as [|a r]; [discriminate|]. cbn [mapM_res] in H.
+      destruct (argfun f (s_cells s) ti a) as [a'|] eqn:E1; [|discriminate].
+      destruct (mapM_res (argfun f (s_cells s) ti) r) as [r'|] eqn:E2; [|discriminate].
+      inversion H; subst a' r'. apply DCons.
+      * apply IHe. right. right. exists f. exact E1.
+      * apply IHs. right. exists f. exact E2.
+Qed.
+
+Lemma inline_loop_den_conv : forall fuel ti keys (s : state) cells',
+  inline_loop fuel keys ti (s_cells s) = Ok cells' ->
+  forall p e b, Den (set_cells s cells') p e b -> Den s p e b.
+Proof.
+  intros fuel ti keys. induction keys as [|k r IH]; intros s cells' H p e b HD; cbn in H.
+  - inversion H; subst. eapply Den_same_tables; [| |exact HD]; reflexivity.
+  - destruct (dget k (s_cells s)) as [cl|] eqn:Ek; [|discriminate].
+    destruct (inline_worker fuel (s_cells s) ti (c_geom cl)) as [g'|] eqn:Eg; [|discriminate].
+    pose proof (IH (set_cells s (dset k (with_geom cl g') (s_cells s))) cells' H p e b HD) as HD1.
+    exact (proj1 (inline_step_den_conv s ti k cl fuel g' Ek Eg p) e b HD1 e (or_introl eq_refl)).
+Qed.
+
+Theorem inline_cells_den_conv : forall fuel num den (s : state) cells',
+  inline_cells fuel num den (s_cells s) = Ok cells' ->
+  forall p e b, Den (set_cells s cells') p e b -> Den s p e b.
+Proof.
+  intros fuel num den s cells' H p e b HD. unfold Model.inline_cells in H.
+  assert (Same : Ok (s_cells s) = Ok cells' -> Den s p e b).
+  { intros E. inversion E; subst. eapply Den_same_tables; [| |exact HD]; reflexivity. }
+  destruct (find_occurrences T (s_cells s)) as [occ|]; [|discriminate].
+  destruct occ as [|o occ']; [exact (Same H)|].
+  destruct (to_inline_set T (s_cells s) num den (o :: occ')) as [ti|]; [|discriminate].
+  destruct ti as [|t0 ti']; [exact (Same H)|].
+  exact (inline_loop_den_conv fuel (t0 :: ti') _ s cells' H p e b HD).
+Qed.
+
 (* ---- the "treat TRCL" loop: geometries are overwritten in place ------------------------------- *)
 (* before FILL is developed the trees contain no CellRef *)
 Fixpoint ref_free (e : tree) : bool :=
